@@ -172,6 +172,8 @@ func (c *kctx) preload() {
 	faults, script, sendErr, hard, closeErr := k.Faults, c.port.script, c.port.sendErrno, c.port.recvHard, c.port.closeErrno
 	k.Faults, c.port.script, c.port.sendErrno, c.port.recvHard, c.port.closeErrno = nil, nil, nil, nil, nil
 	c.res.Probes[kpPreload]++
+	c.res.Long = true
+	preN := core.LongCap(p.Preload, 2000)
 	bad := func(j int, what string, f string, a ...any) {
 		c.viol("long-run", what, "after %d ordinary commands on this client (command mix %d): "+f, append([]any{j, p.PreStyle}, a...)...)
 	}
@@ -213,7 +215,7 @@ func (c *kctx) preload() {
 		return ok && firstErr == 0
 	}
 	noWait := 0
-	for j := 0; j < p.Preload; j++ {
+	for j := 0; j < preN; j++ {
 		if len(c.res.Violations) > 0 {
 			break
 		}
@@ -317,13 +319,15 @@ func (c *kctx) preloadTransport() {
 	sendErr := c.port.sendErrno
 	c.port.sendErrno = nil
 	c.res.Probes[kpPreload]++
+	c.res.Long = true
+	preN := core.LongCap(p.Preload, 2000)
 	bad := func(j int, what, f string, a ...any) {
 		c.viol("long-run", what, "after %d earlier calls on this transport: "+f, append([]any{j}, a...)...)
 	}
 	switch p.PreStyle {
 	case 0:
 		var last uint32
-		for j := 0; j < p.Preload && len(c.res.Violations) == 0; j++ {
+		for j := 0; j < preN && len(c.res.Violations) == 0; j++ {
 			payload := sendPayload(j+5, 4+j%60)
 			seq, err := c.realNL.Send(syscall.NetlinkMessage{Header: syscall.NlMsghdr{Type: uint16(1000 + j%16), Flags: 5}, Data: payload})
 			switch {
@@ -347,7 +351,7 @@ func (c *kctx) preloadTransport() {
 		}
 		c.sentSeqs = append(c.sentSeqs, last)
 	case 1:
-		for j := 0; j < p.Preload && len(c.res.Violations) == 0; j++ {
+		for j := 0; j < preN && len(c.res.Violations) == 0; j++ {
 			data := keeperDatagram(uint32(j + 1))
 			k.Inject(data, 0, false)
 			m, err := c.client.Receive(true)
@@ -362,7 +366,7 @@ func (c *kctx) preloadTransport() {
 	default:
 		f := &keeperNetlink{}
 		cl := &libaudit.AuditClient{Netlink: f}
-		for j := 0; j < p.Preload && len(c.res.Violations) == 0; j++ {
+		for j := 0; j < preN && len(c.res.Violations) == 0; j++ {
 			want := keeperDatagram(uint32(j + 1))
 			m, err := cl.Receive(true)
 			if err != nil || m == nil || int(m.Type) != int(getU16(want[4:])) || !bytes.Equal(m.Data, want[16:]) {
